@@ -286,8 +286,11 @@ theorem gamma_small_nonneg_finite (f : BitsFn) (hf : GoodBits f) (L : Libm) (hL 
     exact a1
   · exact .inr h
 
-/-- Full statement for `Gamma`: every order. The rejection branch (`ia ≥ 6`) is not modelled:
-only `gamma_small_nonneg_finite` (`…_partial`) is proved. -/
+/-- Statement for `Gamma` in terms of `gammaSmall` alone (which is `none` for `ia ≥ 6`): only
+`gamma_small_nonneg_finite` (`…_partial`) is proved of it.  The rejection branch (`ia ≥ 6`) is
+modelled in `Model/RandGamma.lean`; the full clause for every order is
+`GammaStatementFull` in `Props/C18Gamma.lean`: proved for the repaired code
+(`gamma_statement_fixed`), refuted for the pinned code (finding F14). -/
 def GammaStatement : Prop :=
   ∀ (f : BitsFn) (L : Libm) (ia : Nat) (g : Rng), GoodBits f → Total f → LibmLaws L →
     ∃ r, gammaSmall f L ia g = some r ∧ ∀ v g', r = .ok (v, g') → FVal.FinNonneg v
@@ -397,6 +400,14 @@ def toyLibm : Libm where
   pow := fun x _ => match x with
     | .fin m _ => if m = 0 then .inf false else .fin 1 0
     | v => v
+  -- `sqrt x = 2^⌊⌊log2 x⌋ / 2⌋` for `x ≥ 1`, `exp x = 1` (used by the rejection branch of `Gamma`
+  -- only: `Props/C18Gamma.lean` proves that they satisfy `LibmLaws2`)
+  sqrt := fun v => match v with
+    | .fin m s => if m ≤ 0 then .fin 0 0 else .fin ((2 : Int) ^ ((bitlen m.toNat - 1 - s) / 2)) 0
+    | v => v
+  exp := fun v => match v with
+    | .nan => .nan
+    | _ => .fin 1 0
 
 theorem toyLibm_laws : LibmLaws toyLibm where
   log_unit := by
